@@ -12,7 +12,7 @@ The real code is run with its environment replaced from outside (nothing under t
   * Filter.init is wrapped to record the configuration it receives,
   * a logging handler on the root logger records every record (and, for the config line, the very object
     that is being logged, read from Filter.__init__'s frame)."""
-import ast, contextlib, io, json, logging, os, sys, threading, time
+import ast, contextlib, io, json, logging, os, re, sys, threading, time
 import vlib
 from vlib import strl, listl, pairl, zl, booll
 
@@ -738,6 +738,10 @@ def filter_oracle(run, case, obs):
         pw = sec['pw']
         if not pw:
             continue
+        # a PART of a password in clear text is a leak too: look for the unique core every generated password is built around
+        m = re.search(r'pW\d+q', pw)
+        if m:
+            pw = m.group(0)
         # ---- log records
         for name, func, level, msg in obs['records']:
             if func == '__init__' and '(config=' in msg and name == F.__name__:
